@@ -932,6 +932,12 @@ standardize() {
     }
   }
 
+  if (result.empty()) {
+    // A relative path that backs up to where it started ("a/..") still names
+    // the starting directory; the empty string would name nothing.
+    result = ".";
+  }
+
   (*this) = result;
 }
 
